@@ -54,7 +54,10 @@ def cases(rng, run: int, tier: str) -> Iterator[dict]:
             key = rng.choice(["lock_previous", "lock_range", "default", "enabled"])
             v = (rng.random() < 0.6) if key != "default" else fenc(rng.choice([float("nan"), 0.0, 0.5, 2.0, -1.0]))
             ops.append({"op": "set", "out": rng.randrange(n_out), "key": key, "v": v})
-    yield {"arm": "engine", "config": sp, "ops": ops}
+    tr = {"arm": "engine", "config": sp, "ops": ops}
+    if rng.random() < 0.04:
+        tr["debugging"] = True
+    yield tr
 
 
 def components(engine) -> list:
@@ -88,6 +91,9 @@ def execute(trace: dict, keep_log: bool = False) -> Outcome:
         if log is not None:
             log.append(line)
 
+    if trace.get("debugging"):
+        fl.settings.debugging = True
+        st.hit("probes.library_debug_mode")
     tw_spec = copy.deepcopy(sp)
     for o in tw_spec["outputs"]:
         o["lock_previous"], o["lock_range"], o["default"] = False, False, "nan"
